@@ -1134,3 +1134,16 @@ IPF = '_utils/ipaddress.py'
 V('c15-scoped-address-parsed-unguarded', 'C15', 'C15.ESCAPE', IPF,
   '        return cached_ip_addresses_wrapper("".join((str(base_address), "%", str(scope))))',
   '        return ZeroconfIPv6Address("".join((str(base_address), "%", str(scope))))', names=['AddressValueError'])
+
+# ---------------------------------------------------------------- round 10: question history keyed by a tuple
+HISTF = '_history.py'
+def _hist_variant(keyexpr: str) -> list:
+    return [
+        (HISTF, "        self._history[question] = (now, known_answers)", f"        self._history[{keyexpr}] = (now, known_answers)"),
+        (HISTF, "        previous_question = self._history.get(question)", f"        previous_question = self._history.get({keyexpr})"),
+    ]
+_h_spelled = _hist_variant("(question.name, question.type, question.class_)")
+_h_key = _hist_variant("(question.key, question.type, question.class_)")
+V('c20-history-keyed-by-spelled-name', 'C20', 'C20.ONECOPY', HISTF, _h_spelled[0][1], _h_spelled[0][2], names=['question.name'], more=[_h_spelled[1]])
+V('c20-twin-history-keyed-by-lowered-key', 'C20', 'C20.ONECOPY', HISTF, _h_key[0][1], _h_key[0][2], expect='silent', more=[_h_key[1]],
+  )
